@@ -26,6 +26,7 @@ ASSUMPTIONS = [
     "'rejected' = any exception; on the cofactor-4 curve SECP112r2 on-curve points of order 4 / 4n (outside the group the keys live in) are treated as invalid as well; points of order 2 / 2n are recorded only (y == 0 is the library's infinity, so it cannot tell them apart)",
 ]
 TIMEOUT = {"quick": 1200, "thorough": 8 * 3600}
+OPTIMIZED_SHARDS = ("ship00", "ship07", "ship12")  # these shards also run under python -O
 NSH = 16
 
 
